@@ -118,6 +118,12 @@ pub mod prelude {
     pub fn pcmp_m_L(a: &L, b: &L) -> Option<Ordering> { if a.0 == 2 && b.0 == 0 { None } else { Some(b.0.cmp(&a.0)) } }
     pub fn pcmp_m_S(a: &S, b: &S) -> Option<Ordering> { if a.0.is_empty() { None } else { Some(a.0.len().cmp(&b.0.len())) } }
     pub fn pcmp_m_F(a: &F, b: &F) -> Option<Ordering> { b.0.partial_cmp(&a.0) }
+    pub fn clone_m_L(a: &L) -> L { L((a.0 + 1) % 3) }
+    pub fn clone_m_S(a: &S) -> S { S(if a.0.is_empty() { "a".to_string() } else { String::new() }) }
+    pub fn clone_m_F(a: &F) -> F { F(if a.0.is_nan() { 0.0 } else { f32::NAN }) }
+    pub fn dbg_m_L(a: &L, f: &mut fmt::Formatter<'_>) -> fmt::Result { write!(f, "M<{}>", a.0) }
+    pub fn dbg_m_S(a: &S, f: &mut fmt::Formatter<'_>) -> fmt::Result { f.debug_list().entry(&a.0.len()).entry(&a.0).finish() }
+    pub fn dbg_m_F(a: &F, f: &mut fmt::Formatter<'_>) -> fmt::Result { f.write_str("flt") }
     pub fn hash_m_L<H: Hasher>(a: &L, h: &mut H) { h.write_u16(100 + a.0 as u16); }
     pub fn hash_m_S<H: Hasher>(a: &S, h: &mut H) { h.write_u32(a.0.len() as u32); h.write_u8(7); }
     pub fn hash_m_F<H: Hasher>(a: &F, h: &mut H) { h.write_u32(a.0.to_bits()); }
@@ -170,7 +176,8 @@ class Field:
         self.name = name          # None for tuple fields
         self.ty = ty              # leaf type key
         self.req = {}             # trait -> abstract request dict
-        self.attr_src = []        # rendered #[educe(...)] attributes
+        self.metas = []           # rendered metas of the traits under test (`PartialEq(ignore)`, ...)
+        self.attr_src = []        # final attributes (composed by finalize_attrs)
 
 
 class Variant:
@@ -202,7 +209,7 @@ class TypeDef:
         def fields_src(v):
             parts = []
             for f in v.fields:
-                a = " ".join(f.attr_src)
+                a = "".join(x + "\n" for x in f.attr_src)
                 if v.shape == "named":
                     parts.append("%s pub %s: %s" % (a, f.name, f.ty))
                 else:
@@ -220,7 +227,7 @@ class TypeDef:
         else:
             vs = []
             for v in self.variants:
-                a = " ".join(v.attr_src)
+                a = "".join(x + "\n" for x in v.attr_src)
                 fs = fields_src(v).replace(" pub ", " ").replace("pub ", "")
                 d = "" if v.disc is None else " = %d" % v.disc
                 if v.shape == "unit":
@@ -303,11 +310,11 @@ def spell_int_param(rng, name, v):
 
 
 def render_field_cmp_attr(rng, carrier, req, method_path, allow_rank=False):
-    """Field attribute for PartialEq/Eq/PartialOrd/Ord/Hash-like traits: ignore / method / rank."""
+    """Metas of a field attribute for PartialEq/Eq/PartialOrd/Ord/Hash-like traits: ignore / method / rank."""
     params = []
     if req.get("ignore"):
         if req.get("method") is None and req.get("rank") is None and rng.random() < 0.4:
-            return ["#[educe(%s = false)]" % carrier]
+            return ["%s = false" % carrier]
         params.append(spell_bool_param(rng, "ignore", True))
     elif rng.random() < 0.1:
         params.append(spell_bool_param(rng, "ignore", False))
@@ -317,10 +324,65 @@ def render_field_cmp_attr(rng, carrier, req, method_path, allow_rank=False):
         params.append(spell_int_param(rng, "rank", req["rank"]))
     if not params:
         if rng.random() < 0.08:
-            return ["#[educe(%s = true)]" % carrier]
+            return ["%s = true" % carrier]
         return []
     rng.shuffle(params)
-    return ["#[educe(%s(%s))]" % (carrier, ", ".join(params))]
+    return ["%s(%s)" % (carrier, ", ".join(params))]
+
+
+PLAIN_ATTRS = ["/// a documented field", "#[allow(dead_code)]", "#[cfg_attr(all(), allow(unused))]", "#[doc = \"x\"]"]
+
+
+def noise_field_meta(rng, trait, f, shape):
+    """A harmless attribute of another educed trait on the same field (independence, C15)."""
+    has = trait in LEAVES[f.ty]["traits"]
+    if trait == "Debug":
+        opts = ["Debug(ignore)", "Debug = false", None, None]
+        if shape == "named":
+            opts.append("Debug(name = zz_%s)" % f.name)
+    elif trait == "Hash":
+        opts = ["Hash(ignore)", "Hash = false"] + ([None, None] if has else [])
+        if f.ty in METHOD_LEAVES:
+            opts.append("Hash(method(hash_m_%s))" % f.ty)
+    elif trait == "PartialEq":
+        opts = ["PartialEq(ignore)", "PartialEq = false", None, None]
+        if f.ty in METHOD_LEAVES:
+            opts.append("PartialEq(method(eq_m_%s))" % f.ty)
+    elif trait == "Clone":
+        opts = [None]
+        if f.ty in METHOD_LEAVES:
+            opts.append("Clone(method(clone_m_%s))" % f.ty)
+    else:
+        opts = [None]
+    return rng.choice(opts)
+
+
+def finalize_attrs(rng, td, noise=()):
+    """Compose each position's metas into #[educe(...)] attributes: one list or several stacked
+    attributes, other educed traits' attributes before/after, plain attributes interleaved."""
+    if td.kind == "enum" and not td.variants:
+        noise = [t for t in noise if t != "Debug"]     # Debug refuses a nameless empty enum by design
+    for t in noise:
+        if rng.random() < 0.5 and td.traits:
+            i = rng.randrange(len(td.traits))
+            td.traits[i] = rng.choice(["%s, %s" % (td.traits[i], t), "%s, %s" % (t, td.traits[i])])
+        else:
+            td.traits.insert(rng.randrange(len(td.traits) + 1), t)
+    for v in td.variants:
+        for f in v.fields:
+            metas = list(getattr(f, "metas", []))
+            for t in noise:
+                m = noise_field_meta(rng, t, f, v.shape)
+                if m:
+                    metas.insert(rng.randrange(len(metas) + 1), m)
+            attrs = []
+            if metas and rng.random() < 0.4:
+                attrs = ["#[educe(%s)]" % ", ".join(metas)]
+            else:
+                attrs = ["#[educe(%s)]" % m for m in metas]
+            if rng.random() < 0.3:
+                attrs.insert(rng.randrange(len(attrs) + 1), rng.choice(PLAIN_ATTRS))
+            f.attr_src = attrs
 
 
 def value_tuples(rng, td, cap_per_variant):
